@@ -330,6 +330,18 @@ def gen_cases(tier, rng):
                 cs = callseqs
             for calls in cs:
                 yield {"op": "exp.history", "outcomes": outs, "calls": calls}
+    # --- status mapping probe: every substring of the documented words, case/whitespace variants, look-alikes, the empty string
+    # (only the five exact words are documented; everything else must become ERROR and end the polling)
+    probes = {""}
+    for w in DOC:
+        for i in range(len(w)):
+            for j in range(i + 1, len(w) + 1):
+                probes.add(w[i:j])
+        probes |= {w.upper(), w.title(), " " + w, w + " ", w + "\n", w + "s", w[::-1]}
+    probes |= {"done", "error", "queued", "running", "cancel", "canceled", "complete", "0", "None", "null", "pending,finished"}
+    for pr in sorted(probes):
+        for calls in (["results"], ["query", "query"], ["wait"]):
+            yield {"op": "exp.history", "outcomes": [["ok", "pending", 1], ["ok", pr, 2], ["ok", "finished", 3]], "calls": calls}
     # --- experiment histories with transport faults: random
     for _ in range(20000 if thorough else 3000):
         n = rng.randint(1, 14)
